@@ -81,6 +81,10 @@ typedef struct vw_proc {
 	char *sys[16];
 } vw_proc;
 
+typedef struct vw_region { void *p; size_t n; } vw_region;
+#define VW_SNAP_MAXREG 24
+typedef struct vw_snap vw_snap;
+
 /* hooks implemented by the harness */
 typedef struct vw_hooks {
 	/* called for every sendto(); the hook owns routing: it must call
@@ -102,6 +106,10 @@ typedef struct vw_hooks {
 	void (*on_sanitizer)(const char *sig);
 	/* called after a process has run and blocked again (monitors) */
 	void (*after_run)(int proc);
+	/* in-process snapshots: extra memory regions that belong to the state (e.g. the server's calloc'd users[],
+	 * the harness model); note = 64 harness bytes stored with the snapshot and handed back after a restore */
+	int (*snap_regions)(struct vw_region *out, int max, char *note);
+	void (*snap_restored)(const char *note);
 } vw_hooks;
 
 typedef struct vw_world {
@@ -162,7 +170,14 @@ void vw_direct_begin(int p, void *jmpbuf);
 void vw_direct_end(void);
 
 /* state hashing */
-void vw_hash_world(uint64_t out[2], int include_stacks);
+#define VW_HASH_STACKS 1
+#define VW_HASH_COARSE_TIME 2
+void vw_hash_world(uint64_t out[2], int flags);
+
+/* in-process snapshot / restore of the whole world (all processes blocked, network at rest; not under ASan) */
+vw_snap *vw_snapshot(void);
+void vw_restore(const vw_snap *s);
+void vw_snap_free(vw_snap *s);
 
 /* image section registration (set by harness from __start/__stop symbols) */
 void vw_register_section(const char *name, void *start, void *stop);
